@@ -1,0 +1,11 @@
+//go:build verif
+
+package mbapp
+
+import "sync/atomic"
+
+// VerifFirstCounter lets a simulation start the message counter of new swarms anywhere in its range.
+// Only present under the build tag verif.
+var VerifFirstCounter atomic.Uint32
+
+func firstCounter() uint32 { return VerifFirstCounter.Load() }
